@@ -45,6 +45,7 @@ Ltac inv_some := match goal with H : Some _ = Some _ |- _ => inversion H; subst;
 
 (* all projections and setters of the state *)
 Ltac simp :=
+  unfold after_take, after_park, cancel_due in *;
   cbn [pcm kindm depthm frm unwm cbitm dism jcm jbm jexpm jresm awm jstm jwakem ipktm pktm panm joinedm handlem
        parentm cdepthm cleftm cvalm outm gotm tkm tokm parkedm reasonm bownerm nexta nextb
        set_pcm set_kindm set_depthm set_frm set_unwm set_cbitm set_dism set_jcm set_jbm set_jexpm set_jresm set_awm
@@ -53,9 +54,8 @@ Ltac simp :=
        wpc new_task raise after_park after_take cancel_due cdis cloop ctrans current negb andb orb is_co] in *.
 
 (* split the step function into its cases; H : step cf s ac = Some s' *)
-Ltac step_cases H :=
-  unfold step in H;
-  repeat match type of H with
+Ltac sc1 H :=
+  match type of H with
   | context [match ?ac with Root _ => _ | Open _ => _ | Spawn _ _ => _ | Close _ => _ | Join _ _ => _ | Panic _ _ => _
              | CPoint _ => _ | Finish _ _ => _ | Cancel _ => _ | Recheck _ => _ | Step _ => _ end] => destruct ac
   | context [match pcm ?s ?a with _ => _ end] => let E := fresh "Epc" in destruct (pcm s a) eqn:E
@@ -68,7 +68,9 @@ Ltac step_cases H :=
   | context [match panm ?s ?a with _ => _ end] => let E := fresh "Ep" in destruct (panm s a) eqn:E
   | context [match jwakem ?s ?a with _ => _ end] => let E := fresh "Ew" in destruct (jwakem s a) eqn:E
   | context [if ?c then _ else _] => let E := fresh "Ec" in destruct c eqn:E
-  end; try discriminate; try inv_some.
+  | _ => progress cbv zeta in H
+  end; cbv beta iota in H; try discriminate.
+Ltac step_cases H := unfold step in H; repeat (sc1 H); try inv_some.
 
 Ltac bools :=
   repeat match goal with
@@ -92,4 +94,13 @@ Ltac upds :=
   repeat match goal with
   | |- context [Nat.eqb ?x ?y] => destruct (Nat.eqb_spec x y); subst
   | H : context [Nat.eqb ?x ?y] |- _ => destruct (Nat.eqb_spec x y); subst
+  end.
+
+(* remaining case distinctions in control-point expressions *)
+Ltac dm :=
+  repeat match goal with
+  | |- context [match depthm ?s ?a with _ => _ end] => destruct (depthm s a) eqn:?
+  | H : context [match depthm ?s ?a with _ => _ end] |- _ => destruct (depthm s a) eqn:?
+  | |- context [if ?c then _ else _] => destruct c eqn:?
+  | H : context [if ?c then _ else _] |- _ => destruct c eqn:?
   end.
